@@ -535,8 +535,9 @@ static bool run_dump(const std::vector<Id>& ids, int scheme, bool full) {
                 if (!full && reloaded[variant]) continue;
                 reloaded[variant] = true;
                 bool via_fd = full || (ids.size() + variant + scheme) % 2 == 0;
+                // (the copy for the second reload is taken BEFORE the first one: a file-based index extends and rewrites the file it is opened on)
+                if (full || !via_fd) copy_file(f1, f2);
                 if (full || via_fd) ok = reload_and_check(kind, im.name, "fd", f1, model, scheme, extend_id, spec, hist);
-                if (ok && (full || !via_fd)) copy_file(f1, f2);
                 if (ok && (full || !via_fd)) ok = reload_and_check(kind, im.name, "factory", f2, model, scheme, extend_id, spec, hist);
             } catch (const std::exception& e) { report_exception(w, op, e); ok = false; }
         }
